@@ -4,8 +4,8 @@ Layers
   model        lean/FAVerif/Models/HashCons.lean  (Context._register_expression, Expr._compute_serialized,
                Expr._two_level_intkey, Type equality, Python ==/`is` on constant values — as written)
   theorems     lean/FAVerif/Props/C07.lean         (registry invariant, key injectivity, same id <=> structurally
-               identical for ALL histories, no late alias, dense ids; `_partial`/`_plain` + negation witnesses for
-               constants: -0.0 aliases 0.0, equal NaN objects are not shared)
+               identical for ALL histories, no late alias, dense ids; `_partial`/`_plain` + negation witness for
+               constants: equal NaN objects are not shared; regression theorem: -0.0 and 0.0 are distinct since ab6dc38)
   tie          correspondence: seeded construction histories executed on a real functional_algorithms.Context and on
                Drivers/HashCons.lean; per construction the real (fresh|hit|RuntimeError, intkey, key) is diffed
                against the model's; plus Python `==`/`is`/tuple-compare on value pairs against the model's pyEq/tupleEq.
@@ -34,7 +34,8 @@ SEARCHED = [
 TRUSTED = [
     "Lean 4 kernel; axioms propext, Classical.choice, Quot.sound only",
     "hand model Models/HashCons.lean, tied by correspondence on seeded histories (this run)",
-    "Python value model PyVal: exact numeric ==, identity shortcut in tuple/dict comparison, hash consistent with == within one type "
+    "Python value model PyVal: exact numeric ==, identity shortcut in tuple/dict comparison, str(value) injective on the non-NaN values "
+    "of one type and showing the sign of zero, every NaN printing as nan, hash consistent with == within one type "
     "(validated against CPython/numpy on value pairs each run); dict lookup = first entry equal under that comparison",
     "key tuples of the three shapes (symbol / z_constant / other kind) never compare equal for kinds other than symbol, constant, z_constant",
     "normalize_like, normalize, Expr.__new__ assertions and enable_alt contexts are preprocessing outside the model "
@@ -579,12 +580,13 @@ def replay(ctx, obj):
 
 LEVEL_TEXT = ("Proof. Theorems (Lean kernel, all construction histories by induction): the registry invariant (dense ids, injective table, "
               "operands older than their users, no two registered expressions structurally equal), key injectivity under the invariant "
-              "(two-level-key argument), and: two constructions return the same id iff they are structurally identical, where equality of "
-              "constant values is the class of Python's == with the identity shortcut plus the type name (same_iff_struct_partial); the full "
-              "statement with exact constant content holds for all histories without negative zeros and NaNs (same_iff_struct_plain) and is "
-              "refuted in general by two machine-checked witnesses replayed on the real code (-0.0 aliases 0.0; equal NaN objects are not "
-              "shared). The model is a hand port tied by a correspondence check diffing outcome, intkey and key of every construction "
-              "against the Lean driver.")
+              "(two-level-key argument), and: two constructions return the same id iff they are structurally identical, where constant "
+              "values are identified by type name, str(value) (exact content with the sign of zero) and Python's == with the identity "
+              "shortcut, i.e. NaN-containing values by object identity (same_iff_struct_partial); the full statement with exact constant "
+              "content holds for all histories without NaNs, negative zeros included (same_iff_struct_plain), and is refuted in general by a "
+              "machine-checked witness replayed on the real code (equal NaN objects are not shared: duplication only). A regression theorem "
+              "records the repaired -0.0/0.0 aliasing. The model is a hand port tied by a correspondence check diffing outcome, intkey and "
+              "key of every construction against the Lean driver.")
 LEVEL_NOTE = ("Trusted: Lean kernel; the hand model (validated by correspondence each run); the Python value rules (validated on value pairs "
               "each run); CPython dict lookup semantics. normalize_like/normalize/enable_alt preprocessing is outside the model and covered "
               "by search only.")
